@@ -5,6 +5,7 @@ import (
 	"fmt"
 
 	"github.com/ElrondNetwork/elrond-go/core/check"
+	"github.com/ElrondNetwork/elrond-go/data"
 	"github.com/ElrondNetwork/elrond-go/marshal"
 	vmcommon "github.com/ElrondNetwork/elrond-vm-common"
 )
@@ -242,5 +243,45 @@ func (jedtr *journalEntryDataTrieRemove) Revert() (vmcommon.AccountHandler, erro
 
 // IsInterfaceNil returns true if there is no value under the interface
 func (jedtr *journalEntryDataTrieRemove) IsInterfaceNil() bool {
+	return jedtr == nil
+}
+
+// journalEntryDataTrieReplaced puts back the data trie that was cached for an address before it was replaced by
+// the newly created data trie of an account that has been re-created on the same address
+type journalEntryDataTrieReplaced struct {
+	address     []byte
+	oldDataTrie data.Trie
+	dataTries   TriesHolder
+}
+
+// NewJournalEntryDataTrieReplaced outputs a new journalEntryDataTrieReplaced implementation used to restore
+// the cached data trie of an address
+func NewJournalEntryDataTrieReplaced(address []byte, oldDataTrie data.Trie, dataTries TriesHolder) (*journalEntryDataTrieReplaced, error) {
+	if len(address) == 0 {
+		return nil, ErrNilAddress
+	}
+	if check.IfNil(oldDataTrie) {
+		return nil, ErrNilTrie
+	}
+	if check.IfNil(dataTries) {
+		return nil, fmt.Errorf("%w in NewJournalEntryDataTrieReplaced", ErrNilTrie)
+	}
+
+	return &journalEntryDataTrieReplaced{
+		address:     address,
+		oldDataTrie: oldDataTrie,
+		dataTries:   dataTries,
+	}, nil
+}
+
+// Revert applies undo operation
+func (jedtr *journalEntryDataTrieReplaced) Revert() (vmcommon.AccountHandler, error) {
+	jedtr.dataTries.Replace(jedtr.address, jedtr.oldDataTrie)
+
+	return nil, nil
+}
+
+// IsInterfaceNil returns true if there is no value under the interface
+func (jedtr *journalEntryDataTrieReplaced) IsInterfaceNil() bool {
 	return jedtr == nil
 }
